@@ -264,6 +264,27 @@ TRIALS = [
     ("Property.extend_values([text with a NUL])", "unsupported data type", lambda c: c["txtp"].extend_values(["a\x00b"]), None),
     ("DataArray.append([text with a NUL]) on a text array", "unsupported data type", lambda c: c["txta"].append(["a\x00b"]), None),
     ("DataFrame.append_rows(text with a NUL)", "unsupported data type", lambda c: c["txtf"].append_rows([("a\x00b", 2)]), None),
+    ("DataFrame.write_rows(valid row, then a row with text in the int column)", "inconsistent data type",
+     lambda c: c["df"].write_rows([(9, 9.0), ("x", 1.0)], [0, 1]), None),
+    ("DataFrame.write_rows(valid row, then an integer beyond int64)", "value out of range",
+     lambda c: c["df"].write_rows([(9, 9.0), (2 ** 70, 1.0)], [0, 1]), None),
+    ("DataFrame.write_rows(valid row, then a row of 3 values)", "mismatching shape",
+     lambda c: c["df"].write_rows([(9, 9.0), (1, 2.0, 3)], [0, 1]), None),
+    ("DataFrame.write_rows(valid index, then row 7)", "out-of-range index", lambda c: c["df"].write_rows([(9, 9.0), (8, 8.0)], [0, 7]), None),
+    ("DataFrame.write_column(valid cell, then text in the int column)", "inconsistent data type",
+     lambda c: c["df"].write_column([9, "x"], name="x"), None),
+    ("DataFrame.write_column(valid cell, then an integer beyond int64)", "value out of range",
+     lambda c: c["df"].write_column([9, 2 ** 70], name="x"), None),
+    ("DataFrame.append_rows(valid row, then a row with text in the int column)", "inconsistent data type",
+     lambda c: c["df"].append_rows([(9, 9.0), ("x", 1.0)]), None),
+    ("DataFrame.append_column(valid cell, then text, as int)", "inconsistent data type",
+     lambda c: c["df"].append_column([9, "x"], "z", datatype=int), None),
+    ("Group.data_arrays.extend([own array, array of another block])", "wrong block", lambda c: c["g"].data_arrays.extend([c["a"], c["foreign"]]), None),
+    ("Group.data_arrays.extend([own array, <Section>])", "wrong kind", lambda c: c["g"].data_arrays.extend([c["a"], c["s"]]), None),
+    ("Group.data_frames.extend([own frame, frame of another block])", "wrong block", lambda c: c["g"].data_frames.extend([c["df"], c["fdf"]]), None),
+    ("Tag.references.extend([own array, array of another block])", "wrong block", lambda c: c["t"].references.extend([c["a"], c["foreign"]]), None),
+    ("MultiTag.references.extend([own array, 5])", "wrong kind", lambda c: c["mt"].references.extend([c["a"], 5]), None),
+    ("DataArray.sources.extend([own source, <Section>])", "wrong kind", lambda c: c["a"].sources.extend([c["src"], c["s"]]), None),
     ("DataFrame.append_rows(row of 3 values)", "mismatching shape", lambda c: c["df"].append_rows([(1, 2.0, 3)]), None),
     ("DataFrame.append_column(wrong length)", "mismatching shape", lambda c: c["df"].append_column([1], "z", datatype=int), None),
     ("DataFrame.write_cell(row 9)", "out-of-range index", lambda c: c["df"].write_cell(1, position=(9, 0)), None),
